@@ -102,6 +102,10 @@ local _host_only_modules = {
     python = true,
     _G = true,
     _sandbox_phase1 = true,
+    -- The time-limit hook (debug.sethook) belongs to the thread it was set
+    -- in; code running in a new coroutine is never interrupted by it.
+    -- Scribunto does not provide the coroutine library either.
+    coroutine = true,
 }
 
 function _cached_mod(modname)
